@@ -606,10 +606,17 @@ static void case_pbkdf2(uint64_t sub, int hmac)
     unsigned long count = counts[sub % 7];
     size_t pwlen = rng_below(R, 8) == 0 ? 130 + rng_below(R, 900) : rng_below(R, 71), saltlen = rng_below(R, 4) == 0 ? 0 : rng_below(R, 71);
     size_t outlen = rng_below(R, 4) == 0 ? 32 * (1 + rng_below(R, 5)) : rng_below(R, 170);
-    uint8_t *pw = rand_in(pwlen, 1), *salt = rand_in(saltlen, 1), *out = (uint8_t *)galloc(outlen, 1), *exp = (uint8_t *)malloc(outlen + 1);
+    uint8_t *pw, *salt, *out, *exp;
     const char *alg = hmac ? "pbkdf2-hmac" : "pbkdf2";
     char ctx[600];
-    if (thorough && sub % 50 == 49) count = 8192;
+    if (rng_below(R, 40) == 0) {        /* more than 255 / 256 blocks: the block index needs its second byte (and there is no HKDF-like limit) */
+        static const size_t LONG_[] = {8160, 8161, 8192, 8193, 8224, 9607, 16640, 65536 + 33};
+        outlen = LONG_[rng_below(R, 8)];
+        if (count > 2) count = 1 + count % 2;
+        if (pwlen > 70) pwlen = 70;
+    }
+    pw = rand_in(pwlen, 1); salt = rand_in(saltlen, 1); out = (uint8_t *)galloc(outlen, 1); exp = (uint8_t *)malloc(outlen + 1);
+    if (thorough && sub % 50 == 49 && outlen < 8000) count = 8192;
     vf_progress("case=%llu %s pwlen=%zu saltlen=%zu outlen=%zu count=%lu", (unsigned long long)vf_case, alg, pwlen, saltlen, outlen, count);
     if (hmac) { ref_pbkdf2_hmac(exp, outlen, pw, pwlen, salt, saltlen, count); ascon_pbkdf2_hmac(out, outlen, pw, pwlen, salt, saltlen, count); }
     else { ref_pbkdf2(exp, outlen, pw, pwlen, salt, saltlen, count); ascon_pbkdf2(out, outlen, pw, pwlen, salt, saltlen, count); }
